@@ -27,6 +27,7 @@ def bd_fn(ex, E):
 
 
 class IsValidBackdoor(Contract):
+    pure = True   # does not modify any pre-existing object
     file = "pgmpy/inference/CausalInference.py"
     qual = "CausalInference.is_valid_backdoor_adjustment_set"
 
@@ -77,6 +78,7 @@ register(IsValidBackdoor())
 
 
 class GetAllBackdoorSets(Contract):
+    pure = True   # does not modify any pre-existing object
     """get_all_backdoor_adjustment_sets(X, Y): with P = observed variables - {X, Y} - descendants(X) and BD the validity test above,
       * frozenset() when the empty set is valid,
       * otherwise a family of subsets of P that are all valid (soundness) such that every valid subset of P contains one of them
@@ -168,6 +170,7 @@ def fd_fn(ex, E):
 
 
 class IsValidFrontdoor(Contract):
+    pure = True   # does not modify any pre-existing object
     """is_valid_frontdoor_adjustment_set(X, Y, Z) on an acyclic model, X != Y:
        True  <=>  there is a directed path X ~> Y,  Z intercepts every directed path X ~> Y (Y not reachable from X without Z),
                   no back-door path X..z for z in Z  (BD(X, z, {})),  and X blocks every back-door path z..Y  (BD(z, Y, {X}))."""
@@ -219,6 +222,7 @@ register(IsValidFrontdoor())
 
 
 class GetAllFrontdoorSets(Contract):
+    pure = True   # does not modify any pre-existing object
     """get_all_frontdoor_adjustment_sets(X, Y) = exactly the subsets S of observed - {X, Y} with FD(X, Y, S) (the validity test above)."""
     file = "pgmpy/inference/CausalInference.py"
     qual = "CausalInference.get_all_frontdoor_adjustment_sets"
